@@ -538,6 +538,8 @@ func (s *Shared) schedMain(prop, tier string) {
 		cases = c06ShapesCases(tier)
 	case prop == "C05" && shapes:
 		cases = c05ShapesCases(tier)
+	case prop == "C13" && shapes:
+		cases = s.c13ShapesCases(tier)
 	case shapes:
 		// no scenarios of this property for the shapes probe
 	case prop == "C06":
